@@ -1342,7 +1342,11 @@ pub fn corpus_c04_extra() -> Vec<Case> {
         lits.push(format!("5e-{}", ex));
     }
     lits.extend(
-        ["0", "00", "0e0", "0e80", "1e-80", "2e-1", "0x0", "0x10", "0xffffffffffffffffffffffffffffffffffffffffffffffffffffffffffffffffffff", "0.5", "1.5e1", "0.2e1", ".5", "1e1_0", "2 ether", "1 wei", "3 days", "1e18 gwei"]
+        ["0", "00", "0e0", "0e80", "1e-80", "2e-1", "0x0", "0x10", "0xffffffffffffffffffffffffffffffffffffffffffffffffffffffffffffffffffff", "0.5", "1.5e1", "0.2e1", ".5", "1e1_0", "2 ether", "1 wei", "3 days", "1e18 gwei",
+         // exponent extremes: i64::MIN / MAX, their neighbours, beyond i64, many minus signs (the lexer accepts digits, '_' and '-')
+         "1e-9223372036854775808", "1e9223372036854775807", "1e-9223372036854775807", "2e-9223372036854775809", "4e9223372036854775808",
+         "1e99999999999999999999999", "8e-99999999999999999999999", "2e--1", "2e-", "2e-_1", "1e-2147483648", "1e-2147483649", "1e-4294967296",
+         "1e-18446744073709551616", "16e-0", "16e-00", "1_6e-0_0"]
             .iter()
             .map(|s| s.to_string()),
     );
